@@ -4,8 +4,11 @@ from impl_c04 import LABEL
 
 
 def run_case(c):
-    forests = [build_any(t, c.get("cls", "any"), c.get("how", "direct"), c.get("seed", 0) + i)
-               for i, t in enumerate(c["forest"])]
+    forests = []
+    labels = {}          # by identity: a SymlinkNode forwards attribute reads to its target
+    for i, t in enumerate(c["forest"]):
+        forests.append(build_any(t, c.get("cls", "any"), c.get("how", "direct"), c.get("seed", 0) + i))
+        labels.update(LABEL)
     a = forests[c["a"][0]][tuple(c["a"][1])]
     b = forests[c["b"][0]][tuple(c["b"][1])]
     try:
@@ -14,4 +17,4 @@ def run_case(c):
         return {"err": "WalkError"}
     if not isinstance(up, tuple) or not isinstance(down, tuple):
         return {"crash": "not tuples"}
-    return {"up": [x.lbl for x in up], "common": common.lbl, "down": [x.lbl for x in down]}
+    return {"up": [labels[id(x)] for x in up], "common": labels[id(common)], "down": [labels[id(x)] for x in down]}
